@@ -1846,3 +1846,75 @@ def replay(rep):  # noqa: F811
         print('replay: %s' % ('violation reproduced on the real code' if w2 else 'not reproduced'))
         return 1 if w2 else 0
     return _rp26(rep)
+
+
+# ---- funcdims (C02): which dimensionalities the functions accept and return (witness search for the func! bodies) ----
+_FUNC_CASES = [
+    # (query, expected dims as 'name:power,..' or None for an error)
+    ('sin(2)', ''), ('sin(1 radian)', ''), ('sin(1 radian^2)', None), ('sin(1 radian^-1)', None), ('sin(1 radian^3)', None), ('sin(1 m)', None), ('sin(1 radian m)', None),
+    ('cos(2)', ''), ('cos(1 radian)', ''), ('cos(1 radian^2)', None), ('cos(1 / radian)', None), ('cos(1 s)', None),
+    ('tan(2)', ''), ('tan(1 radian)', ''), ('tan(1 radian^2)', None), ('tan(1 radian^-2)', None), ('tan(1 kg)', None),
+    ('asin(0.5)', 'radian:1'), ('asin(0.5 radian)', None), ('asin(0.5 m)', None),
+    ('acos(0.5)', 'radian:1'), ('acos(0.5 radian)', None), ('atan(0.5)', 'radian:1'), ('atan(0.5 radian^2)', None), ('atan(1 m)', None),
+    ('atan2(1 m, 2 m)', 'radian:1'), ('atan2(1 m, 2 s)', None), ('atan2(1, 2 radian)', None), ('atan2(1, 2)', 'radian:1'),
+    ('hypot(3 m, 4 m)', 'm:1'), ('hypot(3 m, 4 s)', None), ('hypot(3, 4 radian)', None), ('hypot(3 m^2, 4 m^2)', 'm:2'),
+    ('sqrt(4 m^2)', 'm:1'), ('sqrt(4 m^3)', None), ('sqrt(4 m^2 / s^4)', 'm:1,s:-2'), ('sqrt(4 radian^2)', 'radian:1'),
+]
+
+
+def _funcdims_witness():
+    if build_core() != 0:
+        return None
+    for q, want in _FUNC_CASES:
+        (ln, text, raw) = run_queries([q])[0]
+        first = (text.splitlines() or [''])[0]
+        why = None
+        if text.startswith('PANIC') or text.startswith('TIMEOUT'):
+            why = 'the query panics or hangs: %s' % first
+        elif want is None:
+            if not text.startswith('ERR'):
+                why = 'expected an error (dimensionality not accepted), got %r' % first
+        else:
+            if text.startswith('ERR') or raw is None:
+                why = 'expected a number of dimensionality {%s}, got %r' % (want, first)
+            else:
+                dims = ','.join(sorted(x.strip() for x in (raw.split(' | ') + [''])[1].split(',') if x.strip()))
+                if dims != ','.join(sorted(x for x in want.split(',') if x)):
+                    why = 'expected the dimensionality {%s}, got {%s}' % (want, dims)
+        if why:
+            return {'replayer': 'funcdims', 'input': {'query': q, 'expected': 'error' if want is None else 'dimensionality {%s}' % want}, 'output': text, 'why': why,
+                    'cmd': '%s %r' % (QUERY_BIN, q)}
+    return None
+
+
+_sf27 = search_family
+
+
+def search_family(fam, prop):  # noqa: F811
+    if fam == 'funcdims':
+        return _funcdims_witness()
+    return _sf27(fam, prop)
+
+
+_fw28 = find_witness
+
+
+def find_witness(o, rep):  # noqa: F811
+    if (o.get('slot') or '').startswith('func::'):
+        w = _funcdims_witness()
+        if w:
+            return w
+    return _fw28(o, rep)
+
+
+_rp28 = replay
+
+
+def replay(rep):  # noqa: F811
+    w = rep.get('replay') or {}
+    if w.get('replayer') == 'funcdims':
+        w2 = _funcdims_witness()
+        print(w2['why'] if w2 else 'all function cases as expected')
+        print('replay: %s' % ('violation reproduced on the real code' if w2 else 'not reproduced'))
+        return 1 if w2 else 0
+    return _rp28(rep)
